@@ -6,7 +6,5 @@ CONSTANTS
   CfgSet <- Cfgs
   FaultSet <- OkOnly
 CONSTRAINT Progress
-INVARIANT OneRowPerSample
-INVARIANT FaultFreeIsOk
 POSTCONDITION Accepted
 CHECK_DEADLOCK FALSE
